@@ -141,6 +141,9 @@ func (m *divMonitor) divideFull(p []uint, q uint, d map[uint]uint, v1NilDist boo
 			inject = false // v1 share computations (nil distribution) are not round divisions
 		}
 	}
+	if sc.DividerDelayNs > 0 {
+		time.Sleep(time.Duration(sc.DividerDelayNs)) // a divider is user code: it may take its time
+	}
 	if !inject {
 		m.inner(p, q, d)
 		return
@@ -231,6 +234,34 @@ func (x *prioExec) afterFault() {
 	m := x.mon
 	x.ctl.SetPhase("await-error-after-divider-fault", "C15")
 	deadline := time.Now().Add(prioL)
+	if x.ignoreErr && x.sc.isV1() {
+		// nobody reads Err(): the user of a v1 discipline notices nothing and stops it some time
+		// later - Stop() must return whatever has (not) been read from Err() (C16), and nothing
+		// of the discipline may be left afterwards (C19, census by the caller)
+		x.startRelease(x.pickRelease(POp{Mode: "all"}))
+		time.Sleep(2 * time.Microsecond)
+		synctest.Wait()
+		x.pull()
+		x.startRelease(x.pickRelease(POp{Mode: "all"}))
+		ret := make(chan struct{})
+		x.stopIssued = true
+		x.wg.Add(1)
+		go func() {
+			defer x.wg.Done()
+			x.sys.stop()
+			close(ret)
+		}()
+		select {
+		case <-ret:
+			x.res.ErrIgnored = true
+			x.res.Terminated = true
+			x.res.TermWay = "divider-fault-then-stop"
+		case <-time.After(prioL):
+			x.fail("C16", "stop-hangs-after-unread-error", "divider fault (%s), Err() never read: Stop() did not return within %s (virtual)", m.faultDesc, prioL)
+			x.logf("goroutines of the bubble: %s", bubbleStacks(x.ctl.bubbleID.Load()))
+		}
+		return
+	}
 	ended := func() bool { return x.errClosed || (x.ignoreErr && x.outClosed) }
 	for !ended() && time.Now().Before(deadline) {
 		synctest.Wait()
